@@ -16,9 +16,9 @@ def enc_abs(v) -> bytes:
     if tag == "Integer":
         return enc_int(tok)
     if tag == "OctetString":
-        return enc_str(b"s%d" % tok)
+        return enc_str(b"s%d" % tok if tok != -1 else b"")          # token -1: the empty string
     if tag == "Opaque":
-        return enc_str(b"o%d" % tok, 0x44)
+        return enc_str(b"o%d" % tok if tok != -1 else b"", 0x44)
     if tag == "ObjectIdentifier":
         return enc_oid((1, 3, 6, 1, tok))
     if tag in ("OpaqueRaw", "OctetStringRaw"):     # content given octet by octet (e.g. content that is itself well-formed BER)
@@ -90,9 +90,9 @@ def mk_x690(v):
     if tag == "Integer":
         return Integer(tok)
     if tag == "OctetString":
-        return OctetString(b"s%d" % tok)
+        return OctetString(b"s%d" % tok if tok != -1 else b"")
     if tag == "Opaque":
-        return Opaque(b"o%d" % tok)
+        return Opaque(b"o%d" % tok if tok != -1 else b"")
     if tag == "ObjectIdentifier":
         return ObjectIdentifier("1.3.6.1.%d" % tok)
     if tag == "IpAddress":
